@@ -6,7 +6,7 @@ CONSTANTS
   Timeouts = {0, 2, 1000000}
   Thresholds = {0, 1000, 1001, 999999999}
   Ages = {0, 1199, 1300}
-  PrevFees = 700
+  PrevFeeSet <- PFSmall
   AddFee = 1000
   Strict = FALSE
   Calls = 1
